@@ -37,7 +37,8 @@ Theorem torn_down_terminates : forall p st,
   (forall ls st', run p st ls = Some st' -> enabled p st' = [] -> final st' = true).
 Proof. exact torn_down_terminates_proof. Qed.
 
-(* After a walk error on the sender (or the walker seeing its context cancelled, or a failed
+(* After a walk error on the sender (or the walker seeing its context cancelled before an entry
+   — the walk checks its context once per entry, not after the last one —, or a failed
    STAT send) the walker's next stream operation is SendMsg(ERR), and the packet is appended
    to the stream unless the endpoint has already failed; after a callback / syscall error
    inside HandleChange (and, through err_path_r, after any error of the diff or of a writer)
@@ -45,7 +46,7 @@ Proof. exact torn_down_terminates_proof. Qed.
    goroutine can take either of them off that path. *)
 Theorem fault_reaches_peer : forall p st, reachable p st ->
   ((forall st', step p st LSWalkErr = Some st' -> err_path_s st') /\
-   (sw_pc st = SW_Next -> s_cancel st = true -> forall st', step p st LSWalk = Some st' -> err_path_s st') /\
+   (sw_pc st = SW_Next -> sw_i st < nentries p -> s_cancel st = true -> forall st', step p st LSWalk = Some st' -> err_path_s st') /\
    (forall k, sw_pc st = SW_Send k -> s_broken st = true -> forall st', step p st LSWalk = Some st' ->
       err_path_s st' \/ k = KErr) /\
    (err_path_s st ->
